@@ -59,6 +59,7 @@ fn main() {
     "realdriver" => { let seed: u64 = args[2].parse().unwrap(); let cases: u64 = args[3].parse().unwrap(); std::process::exit(remapping_loop::real_driver(seed, cases)); },
     "realdriver1" => { let n: u64 = args[2].parse().unwrap(); std::process::exit(remapping_loop::real_driver_one(n)); },
     "tables" => { std::process::exit(tables_probe::tables()); },
+    "programs" => { let n: u64 = args[2].parse().unwrap(); let seed: u64 = args[3].parse().unwrap(); std::process::exit(loader_probe::programs_bounded(n, seed)); },
     "anymod" => { std::process::exit(key_transforms::anymod()); },
     "c18" => {
       let seed: u64 = args[2].parse().unwrap(); let budget: u64 = args[3].parse().unwrap();
